@@ -2,5 +2,6 @@
    (harness/C03); do not edit. *)
 From Coq Require Import ZArith NArith List.
 Import ListNotations.
-(* results.go: timeoutCheckGracePeriodMillis *)
-Definition c03_grace : Z := 500%Z.
+(* results.go: const timeoutCheckGracePeriodMillis = 500 *)
+Definition c03_grace_value : Z := 500%Z.
+Definition c03_grace_unit_ns : Z := 1000000%Z.
